@@ -179,6 +179,31 @@ pub fn run(ctx: &Ctx, rep: &mut Report) {
             crate::cmp::Cmp::AgreeErr(..) => rep.count("fuller_grammar_refused"),
         }
     });
+    // octal spellings outside the 3-4 digits of the project's grammar: 1-2 digits, leading zeros, and
+    // values above 07777 (5..24 digits, incl. values whose low twelve bits look like an ordinary mode and
+    // values beyond 2^32 / 2^64). May be refused; if accepted the bits are exactly the value, so a value
+    // above 07777 can only be refused.
+    let n = ctx.pick(400, 200_000);
+    par_cases(ctx, "oddlen", n, rep, |i, rep| {
+        let mut r = Rng::for_case(ctx.seed, "oddlen", i);
+        rep.evaluations += 1;
+        let low = r.below(0o10000);
+        let body = match r.below(6) {
+            0 => format!("{:o}", r.below(0o100)),                                 // 1-2 digits
+            1 => format!("{}{:04o}", "0".repeat(1 + r.usize(20)), low),            // leading zeros, value fits
+            2 => format!("{:o}{:04o}", 1 + r.below(0o77), low),                    // 5-6 digits, file-type-like high bits
+            3 => format!("{:o}{:04o}", 1u64 << (r.below(52) + 1), low),            // high bit far away
+            4 => format!("{}{:04o}", "7".repeat(1 + r.usize(24)), low),            // beyond u32 / u64
+            _ => format!("{:o}", (1u64 << 32) * (1 + r.below(9)) + low),           // 2^32 multiples + ordinary mode
+        };
+        let text = format!("-perm {}{}", ["", "-", "/"][r.usize(3)], body);
+        match crate::cmp::compare(&text) {
+            crate::cmp::Cmp::Bad { kind, what, detail } => rep.violation(&format!("C08:octal-spelling:{}", kind), &what, &format!("oddlen:{}", i), detail),
+            crate::cmp::Cmp::Skip(_) => rep.skipped_unspecified += 1,
+            crate::cmp::Cmp::AgreeOk(..) => rep.count("odd_octal_spelling_accepted_with_exact_bits"),
+            crate::cmp::Cmp::AgreeErr(..) => rep.count("odd_octal_spelling_refused"),
+        }
+    });
     if ctx.only.is_none() {
         rep.floor("permission checks executed", rep.get("modes_executed") > 1000);
     }
